@@ -48,6 +48,32 @@ func (w *World) foldRound(overlay map[string][]byte, st *foldState) map[string][
 		return nil
 	}
 	out := map[string][]byte{}
+	// method values of new unexported types (`filler.insert` handed to a function: a closure rewritten as a method of a
+	// small struct) are first written as the closure they stand for - func(args) { return filler.insert(args) } - so that
+	// the method has plain calls only and is folded like any other new helper in the next round
+	for _, p := range w.Pkgs {
+		rel := relOfPkg(p.Types)
+		if tab.Funcs[rel] == nil {
+			continue
+		}
+		for _, f := range p.Syntax {
+			fname := w.Fset.Position(f.Pos()).Filename
+			if strings.HasSuffix(fname, "_test.go") {
+				continue
+			}
+			src, ok := overlay[fname]
+			if !ok {
+				src, _ = os.ReadFile(fname)
+			}
+			if b, n := etaExpandMethodValues(w.Fset, p.TypesInfo, f, src, tab.Types[rel], tab.Funcs[rel]); n > 0 {
+				out[fname] = b
+				foldNotes = append(foldNotes, fmt.Sprintf("helper folding: %d method value(s) of a new unexported type in %s written as the closure they stand for", n, strings.TrimPrefix(fname, w.Repo+"/")))
+			}
+		}
+	}
+	if len(out) > 0 {
+		return out
+	}
 	for _, p := range w.Pkgs {
 		rel := relOfPkg(p.Types)
 		rec := tab.Funcs[rel]
@@ -650,4 +676,104 @@ func foldLocalClosure(fset *token.FileSet, pkg *types.Package, info *types.Info,
 		return out, c.obj.Name()
 	}
 	return nil, ""
+}
+
+// etaExpandMethodValues rewrites `x.m` (a method value, x an identifier, m a new unexported method of a new
+// unexported named type of this package) into `func(p0 T0, ...) R { return x.m(p0, ...) }`.
+func etaExpandMethodValues(fset *token.FileSet, info *types.Info, f *ast.File, src []byte, recTypes map[string]anchorType, recFuncs map[string]anchorFunc) ([]byte, int) {
+	if len(src) != fset.File(f.Pos()).Size() {
+		return nil, 0
+	}
+	off := func(p token.Pos) int { return fset.Position(p).Offset }
+	type edit struct {
+		from, to int
+		text     string
+	}
+	var edits []edit
+	var stack []ast.Node
+	ast.Inspect(f, func(n ast.Node) bool {
+		if n == nil {
+			stack = stack[:len(stack)-1]
+			return true
+		}
+		stack = append(stack, n)
+		se, ok := n.(*ast.SelectorExpr)
+		if !ok {
+			return true
+		}
+		sel := info.Selections[se]
+		if sel == nil || sel.Kind() != types.MethodVal {
+			return true
+		}
+		if len(stack) >= 2 {
+			if call, isCall := stack[len(stack)-2].(*ast.CallExpr); isCall && call.Fun == ast.Expr(se) {
+				return true // a plain call
+			}
+		}
+		if _, isID := se.X.(*ast.Ident); !isID {
+			return true
+		}
+		m, ok := sel.Obj().(*types.Func)
+		if !ok || m.Exported() || m.Pkg() == nil {
+			return true
+		}
+		sig := m.Type().(*types.Signature)
+		recv := sig.Recv().Type()
+		if pt, isPtr := recv.(*types.Pointer); isPtr {
+			recv = pt.Elem()
+		}
+		named, ok := recv.(*types.Named)
+		if !ok || named.Obj().Exported() || named.TypeParams().Len() > 0 {
+			return true
+		}
+		if _, known := recTypes[named.Obj().Name()]; known {
+			return true
+		}
+		if _, known := recFuncs[named.Obj().Name()+"."+m.Name()]; known {
+			return true
+		}
+		if _, renamed := oldFuncName[m.Origin()]; renamed {
+			return true
+		}
+		qual := func(p *types.Package) string {
+			if p == m.Pkg() {
+				return ""
+			}
+			return p.Name()
+		}
+		var params, args []string
+		for i := 0; i < sig.Params().Len(); i++ {
+			pn := fmt.Sprintf("dvArg%d", i)
+			t := types.TypeString(sig.Params().At(i).Type(), qual)
+			if sig.Variadic() && i == sig.Params().Len()-1 {
+				t = "..." + strings.TrimPrefix(t, "[]")
+				args = append(args, pn+"...")
+			} else {
+				args = append(args, pn)
+			}
+			params = append(params, pn+" "+t)
+		}
+		var results []string
+		for i := 0; i < sig.Results().Len(); i++ {
+			results = append(results, types.TypeString(sig.Results().At(i).Type(), qual))
+		}
+		res := ""
+		ret := ""
+		if len(results) > 0 {
+			res = " (" + strings.Join(results, ", ") + ")"
+			ret = "return "
+		}
+		text := "func(" + strings.Join(params, ", ") + ")" + res + " { " + ret + string(src[off(se.Pos()):off(se.End())]) + "(" + strings.Join(args, ", ") + ") }"
+		edits = append(edits, edit{off(se.Pos()), off(se.End()), text})
+		return true
+	})
+	if len(edits) == 0 {
+		return nil, 0
+	}
+	sort.Slice(edits, func(i, j int) bool { return edits[i].from > edits[j].from })
+	out := append([]byte{}, src...)
+	for _, e := range edits {
+		out = append(out[:e.from], append([]byte(e.text), out[e.to:]...)...)
+	}
+	return out, len(edits)
 }
